@@ -17,7 +17,8 @@ package main
 // order and lies strictly above every lock held, and above every obligation not yet discharged at that point (a token
 // already returned, a channel already closed - these are solver goals over the path condition, not syntax). A timer
 // case always justifies a select. Cases on objects outside the order (the consumer reading an output channel, an Ack,
-// ctx.Done()) never justify blocking: the environment promises nothing.
+// ctx.Done()) justify blocking only for a thread with empty hands - no lock held, every obligation discharged: the
+// environment promises nothing, so nobody may be kept waiting for a thread that waits for it.
 //
 // A function under contract that blocks declares `ghost waits CLASS`, the lowest class it may block on; its own blocking
 // operations are checked to lie at or above it, and every call site is checked as a blocking operation on CLASS.
@@ -134,6 +135,9 @@ func declaredWaits(fc *FuncContract) string {
 	}
 	for _, cl := range fc.Of("ghost") {
 		if strings.HasPrefix(cl.Text, "waits ") {
+			if strings.TrimSpace(strings.TrimPrefix(cl.Text, "waits ")) == "env" {
+				return "env"
+			}
 			return qualifyClass(fc.Pkg, strings.TrimPrefix(cl.Text, "waits "))
 		}
 	}
@@ -253,8 +257,13 @@ func (x *Exec) waitCheck(st *State, site string, cases []waitCase, exempt map[*T
 	k := x.site(st, "waitlevel:"+site)
 	name := fmt.Sprintf("waitlevel:blocks-only-above-what-it-holds@%s#%d", site, k)
 	floor, hasFloor := 0, false
+	envDeclared := true
 	if len(st.Frames) == 1 && x.FC != nil {
-		if c := declaredWaits(x.FC); c != "" {
+		if c := declaredWaits(x.FC); c == "env" {
+			// the function may wait for the environment: its callers come with empty hands (checked at their call sites)
+			floor, hasFloor = -1, true
+		} else if c != "" {
+			envDeclared = false
 			l, ok := wo.level(c)
 			if !ok {
 				x.failHard(st, "waitlevel", name, pos, "ghost waits "+c+": not a class of the package's waitorder")
@@ -276,7 +285,35 @@ func (x *Exec) waitCheck(st *State, site string, cases []waitCase, exempt map[*T
 	for _, c := range cases {
 		lvl, ok := wo.level(c.Class)
 		if !ok {
-			why = append(why, fmt.Sprintf("%s: class %q is not in the waitorder (nobody of this package is obliged to signal it)", c.Desc, c.Class))
+			// an object outside the order (the environment's): waiting for it harms nobody of this package only if the
+			// thread holds no lock and owes nothing any more
+			held := 0
+			for _, id := range ids {
+				if !st.Held[id].Borrowed {
+					held++
+				}
+			}
+			if held > 0 {
+				why = append(why, fmt.Sprintf("%s: class %q is not in the waitorder (nobody of this package is obliged to signal it) and the thread holds a lock", c.Desc, c.Class))
+				continue
+			}
+			if !envDeclared {
+				why = append(why, fmt.Sprintf("%s: class %q is not in the waitorder; a function that waits for the environment says so (ghost waits env), so that its callers come with empty hands", c.Desc, c.Class))
+				continue
+			}
+			var conj []*Term
+			for _, o := range st.Oblig {
+				if exempt[o.Ref] {
+					continue
+				}
+				switch o.Kind {
+				case "chan":
+					conj = append(conj, st.closed(o.Ref))
+				case "wg":
+					conj = append(conj, Eq(Select(st.ghostArr("wgmine", SInt), o.Ref), IntLit(0)))
+				}
+			}
+			alts = append(alts, And(conj...))
 			continue
 		}
 		if hasFloor && lvl < floor {
@@ -361,6 +398,9 @@ func (x *Exec) waitCheckCall(st *State, callee *ssa.Function, fc *FuncContract, 
 				}
 			}
 		}
+	}
+	if c == "env" {
+		c = "" // a callee that may wait for the environment: the caller needs empty hands
 	}
 	x.waitCheck(st, "call:"+name, []waitCase{{c, "call of " + name}}, exempt, pos)
 }
